@@ -371,6 +371,10 @@ func c07NestedRoot() (string, error) {
 	if err := os.CopyFS(filepath.Join(root, "outer", "inner"), os.DirFS(filepath.Join(vBundledRoot, "testpic_8s"))); err != nil {
 		return "", err
 	}
+	// a sibling whose name starts with the name of another asset
+	if err := os.CopyFS(filepath.Join(root, "outer_long"), os.DirFS(filepath.Join(vBundledRoot, "testpic_6s"))); err != nil {
+		return "", err
+	}
 	return root, nil
 }
 
@@ -600,6 +604,13 @@ func TestVerifC07(t *testing.T) {
 					case strings.HasPrefix(f.Sig, "C07."):
 						p := strings.SplitN(f.Sig, ":", 2)
 						clause, sig = p[0], p[1]
+					case f.Sig == "engine:replay-divergence":
+						// the executions of a pair share one server: the same schedule took another path through the code than
+						// before, so an earlier request has changed what this one does. The pair is not explored any further
+						// (histories are judged by parts H1, H2 and N); the run is reported as not exhaustive.
+						rep.Cap("pair: replay diverged on a shared server (control flow depends on earlier requests)")
+						rep.Note("replay divergence for %s || %s: %s", a.name, b.name, f.Msg)
+						continue
 					case strings.HasPrefix(f.Sig, "engine:"):
 						t.Fatalf("engine: %s %s", f.Sig, f.Msg)
 					}
@@ -708,7 +719,7 @@ func TestVerifC07(t *testing.T) {
 			if err != nil {
 				t.Fatalf("nested-asset server: %v", err)
 			}
-			for _, u := range []string{
+			nurls := []string{
 				"/livesim2/outer/Manifest.mpd?nowMS=610000",
 				"/livesim2/outer/inner/Manifest.mpd?nowMS=610000",
 				"/livesim2/outer/V300/init.mp4?nowMS=610000",
@@ -717,7 +728,36 @@ func TestVerifC07(t *testing.T) {
 				"/livesim2/outer/inner/V300/70.m4s?nowMS=610000",
 				"/livesim2/segtimeline_1/outer/inner/Manifest.mpd?nowMS=610000",
 				"/vod/outer/inner/Manifest.mpd",
-			} {
+				"/livesim2/outer_long/Manifest.mpd?nowMS=610000",
+				"/livesim2/outer_long/V300/100.m4s?nowMS=610000",
+				"/livesim2/outer_lon/V300/100.m4s?nowMS=610000",
+			}
+			// every ordered pair of these requests on one server: the second answer is that of a fresh server
+			nfresh := map[string]c07Resp{}
+			for _, u := range nurls {
+				fs, err := vNewServer(nroot, "", false)
+				if err != nil {
+					t.Fatalf("nested-asset server: %v", err)
+				}
+				x := under(func(s *vrt.Sched) { nfresh[u] = c07Serve(fs, c07Elem{name: u, url: u, cmp: true}, false) })
+				reportFails(x, "fresh:nested-asset")
+			}
+			for _, ua := range nurls {
+				for _, ub := range nurls {
+					var rb c07Resp
+					x := under(func(s *vrt.Sched) {
+						c07Serve(nsrv, c07Elem{name: ua, url: ua, cmp: true}, false)
+						rb = c07Serve(nsrv, c07Elem{name: ub, url: ub, cmp: true}, false)
+					})
+					reportFails(x, "pair:nested-asset")
+					rep.Hit("C07.history")
+					rep.AddExecs(1)
+					if !rb.eq(nfresh[ub]) {
+						rep.Violate("C07.history", "response-depends-on-history:sibling-or-nested-asset", fmt.Sprintf("%s answers %v after %s on the same server, %v on a fresh server", ub, rb, ua, nfresh[ub]), map[string]any{"first": ua, "second": ub})
+					}
+				}
+			}
+			for _, u := range nurls {
 				e := c07Elem{name: u, url: u, cmp: true}
 				var base c07Resp
 				for mi, mode := range []int{vrt.MapSorted, vrt.MapReverse} {
